@@ -84,8 +84,7 @@ Definition restrict (es : optab) (reg : list path) : optab := filter (fun e => p
 Definition given (abbrev : bool) (es : optab) (argv : list tok) (p : path) : list string :=
   map snd (filter (fun t => match classify abbrev es (fst t) with Some q => path_eqb q p | None => false end) argv).
 
-(* required / default; with choices=keys (`validates`: FieldWrapper.get_arg_options puts the table's keys into the
-   argument options) every occurrence is validated; the last one wins *)
+(* required / default; with choices=keys (`validates`) every occurrence is validated; the last one wins *)
 Definition pick_v (validates : bool) (dflt : option string) (ks : list string) (g : list string) : res string :=
   if negb validates || forallb (fun k => str_in k ks) g then
     match last_opt g with
@@ -154,7 +153,8 @@ Section Facts.
                                       is looked at before `subgroup_default` *)
   Variable loop_breaks : bool.     (* the itertools.count() loop stops as soon as no subgroup is unresolved *)
   Variable report_ns : bool.       (* namespace.subgroups[dest] is read back from the parsed namespace *)
-  Variable validates : bool.       (* FieldWrapper.get_arg_options: a choice field's options carry choices=<keys> *)
+  Variable validates : bool.       (* the subgroup option carries choices=<keys>: fields.choice() -> field(choices=..) ->
+                                      metadata['custom_args'], which FieldWrapper.arg_options lays over the generated options *)
   Variable main_has_sg : bool.     (* DataclassWrapper.add_arguments adds the (already resolved) subgroup fields to the
                                       main parser as well *)
   Variable sees_argv : bool.       (* parse_known_args -> _preprocessing -> _resolve_subgroups are handed the command line *)
